@@ -277,6 +277,10 @@ func (m *machine) exec(s M) (ret any) {
 		r := new(big.Rat).SetFrac(bigInt(str(s, "num")), bigInt(str(s, "den")))
 		m.reg(s, "z").SetRat(r)
 	case "NewDecimal":
+		if e := num(s, "e"); int64(int(e)) != e {
+			// a 32-bit build cannot even pass this exponent: the step is not executed there (the log comparison skips it)
+			return M{"skip32": true}
+		}
 		d := decimal.NewDecimal(num(s, "i"), int(num(s, "e")))
 		m.reg(s, "z")
 		m.regs[str(s, "z")] = d
